@@ -10,14 +10,20 @@ TECHNIQUE = "differential runtime monitor vs independent codec references; exhau
 RULE = ("cases: byte strings of every length 0..80 x leading-zero counts, alphabet/non-alphabet strings, Base58Check "
         "checksum and single-character corruptions, (hrp, version, program) triples incl. every allowed and disallowed "
         "length, mixed case, wrong checksum constant, bad padding, and all single + all/sampled double + sampled "
-        "triple/quadruple substitutions of valid addresses. A case is non-trivial when it is not the empty input; distinct "
-        "by (operation, input).")
+        "triple/quadruple substitutions of valid addresses; strings from restricted alphabets (valid addresses with no cased "
+        "character at all - digit/punctuation HRP, digit-only data part and checksum - found by search, and characters "
+        "outside ASCII whose case folding lands in the charset); call histories on one process: the same request repeated "
+        "and spelled differently (plain str / parseable_str, bytes / list program, explicit max_length=90, the same text "
+        "under two HRPs) after every mutable value handed out earlier or passed in was modified in place by the caller. "
+        "A case is non-trivial when it is not the empty input; distinct by (operation, input).")
 ASSUMPTIONS = [
     "reference codecs in vmon/refs/b58.py and vmon/refs/bech32.py are correct (self-tested on every run against the "
     "published Base58 vectors and the BIP173/BIP350 valid/invalid lists)",
     "'difference of up to four characters' is read as up to four substituted character positions (the BCH guarantee)",
 ]
-EXPLANATION = "every pycoin codec call is compared with the reference codec's result; rejection classes must raise EncodingError / return (None, None)"
+EXPLANATION = ("every pycoin codec call is compared with the reference codec's result; rejection classes must raise EncodingError / "
+               "return (None, None); in history shards the expected result of a call never depends on earlier calls or on what the "
+               "caller did with earlier results")
 
 
 def exhaustive(tier):
@@ -30,6 +36,9 @@ def plan(tier, seed):
               {"kind": "b58check", "n": 1500 if tier == "quick" else 60000},
               {"kind": "bech32", "n": 8000 if tier == "quick" else 400000},
               {"kind": "bech32_reject", "n": 6000 if tier == "quick" else 300000}]
+    shards.append({"kind": "caseless", "n": 90 if tier == "quick" else 3000, "label": "caseless"})
+    for p in range(2 if tier == "quick" else 6):
+        shards.append({"kind": "hist", "n": 500 if tier == "quick" else 25000, "label": "hist%d" % p})
     # substitution sweeps: singles fully, doubles split over shards by first position
     parts = 12
     for a in range(n_addr):
@@ -40,8 +49,92 @@ def plan(tier, seed):
     return shards
 
 
+# valid segwit addresses without a single cased character (hrp, version, program hex, address); the reference codec is
+# validated on them at self-test time and the search below must be able to produce strings of exactly this class
+CASELESS_EXAMPLES = [
+    ("2", 7, "aebd4a", "21846755369899"),
+    ("2", 5, "2a8e5f", "21992897204456"),
+    ("42", 15, "8ea2aa", "421036325653706"),
+    ("42", 5, "3d6b5d7954", "421984446725020036"),
+    ("2024", 10, "557d4d1cf4546952be873d28a52954a78b43d3ca", "20241224756885235490588552222557958572990008"),
+    ("?", 7, "abfd5f", "?1840747220099"),
+    ("?", 10, "7aa3a7d7c75168a52b5ad1e25f1caa3bcfea9551", "?1202360478295222666839789280874923556206"),
+    ("1", 5, "f1df4f", "11978057522247"),
+    ("#1", 10, "aea95f", "#11246547403453"),
+]
+CASELESS_HRPS = ["2", "42", "2024", "?", "#1", "1", "11", "0", "~", "_", "[]", "`", "{|}", "9-9", "@", "!\"#", "^_^", "$%&'()*+,-./:;<=>"]
+DIGIT5 = [i for i, ch in enumerate(R32.CHARSET) if ch.isdigit()]
+
+
+def _has_case(text):
+    return text.lower() != text or text.upper() != text
+
+
+def _caseless_groups(rng, nbits_pad, n):
+    """n 5-bit groups drawn from the digit characters of the charset, the last one with `nbits_pad` zero low bits."""
+    last = [g for g in DIGIT5 if g % (1 << nbits_pad) == 0]
+    if n == 0:
+        return []
+    if not last:
+        return None
+    return [rng.choice(DIGIT5) for _ in range(n - 1)] + [rng.choice(last)]
+
+
+def _pm_feed(c, vals):
+    for v in vals:
+        b = c >> 25
+        c = ((c & 0x1ffffff) << 5) ^ v
+        for i in range(5):
+            if (b >> i) & 1:
+                c ^= R32.GEN[i]
+    return c
+
+
+def caseless_search(rng, hrp, first, n, pad, variant, tries=400):
+    """Search data = [first] + n digit groups whose 6 checksum characters are digits too. -> data5 or None.
+    The checksum state of a random prefix is computed once and the last (up to) three groups are enumerated."""
+    if n and not [g for g in DIGIT5 if g % (1 << pad) == 0]:
+        return None
+    digits = set(DIGIT5)
+    head = ([first] if first is not None else [])
+    k = min(n, 3)
+    for _ in range(tries):
+        g = _caseless_groups(rng, pad, n)
+        fixed = head + g[:n - k]
+        c0 = _pm_feed(1, R32._expand(hrp) + fixed)
+        tails = [[]]
+        for j in range(k):
+            allowed = DIGIT5 if j < k - 1 else [x for x in DIGIT5 if x % (1 << pad) == 0]
+            tails = [t + [x] for t in tails for x in allowed]
+        rng.shuffle(tails)
+        for t in tails:
+            pm = _pm_feed(c0, t + [0] * 6) ^ R32.CONST[variant]
+            if all(((pm >> (5 * (5 - i))) & 31) in digits for i in range(6)):
+                data = fixed + t
+                assert R32.checksum(hrp, data, variant) == [(pm >> (5 * (5 - i))) & 31 for i in range(6)]
+                return data
+    return None
+
+
 def selftest(rec):
-    return {"b58_vectors": RB.selftest(), "bech32_vectors": R32.selftest()}
+    n = 0
+    for hrp, ver, ph, text in CASELESS_EXAMPLES:
+        prog = bytes.fromhex(ph)
+        assert not _has_case(text) and not any(ch.isalpha() for ch in text), text
+        assert R32.segwit_encode(hrp, ver, prog) == text, text
+        assert R32.segwit_decode(hrp, text) == (ver, prog), text
+        assert R32.raw_decode(text) == (hrp, [ver] + R32.to5(prog), "bech32m"), text
+        for k in range(len(hrp) + 1, len(text)):        # every single digit substitution is detected
+            for ch in "0234":
+                if ch != text[k]:
+                    assert R32.raw_decode(text[:k] + ch + text[k + 1:]) is None
+        n += 1
+    import random
+    d = caseless_search(random.Random(11), "42", 7, 5, 1, "bech32m")
+    assert d is not None and not _has_case(R32.raw_encode("42", d, "bech32m")) and R32.from5(d[1:]) is not None
+    # case folding facts the unicode class relies on
+    assert "\u212a".lower() == "k" and "\u017f".upper() == "S" and "\u0131".upper() == "I"
+    return {"b58_vectors": RB.selftest(), "bech32_vectors": R32.selftest(), "caseless_examples": n + 1}
 
 
 # ---------------------------------------------------------------------------------------------
@@ -217,18 +310,27 @@ def _check_segwit_triple(hrp, ver, prog, rec, M):
         if st == "ok" and got is not None:
             rec.violation("bech32.encodes_disallowed", {"hrp": hrp, "ver": ver, "prog": prog}, got, None)
         return None
+    sfx = "" if _has_case(exp) else ".caseless_string"
+    if sfx:
+        rec.ev("bech32.caseless_valid_string")
     if st != "ok" or got != exp:
-        rec.violation("bech32.encode_mismatch", {"hrp": hrp, "ver": ver, "prog": prog}, got, exp)
+        rec.violation("bech32.encode_mismatch" + sfx, {"hrp": hrp, "ver": ver, "prog": prog}, got, exp)
         return None
+    # the program given as a list of byte values is the same request
+    rec.ev("bech32m.encode.list_program")
+    st, got = observe(bm.encode, hrp, ver, list(prog))
+    if st != "ok" or got != exp:
+        rec.violation("bech32.encode_mismatch.list_program", {"hrp": hrp, "ver": ver, "prog": prog}, got, exp)
     for text in (exp, exp.upper()):
         rec.ev("bech32m.decode")
         st, d = observe(bm.decode, hrp, text)
         if st != "ok" or d[0] != ver or d[1] is None or bytes(d[1]) != prog:
-            rec.violation("bech32.decode_not_inverse", {"hrp": hrp, "text": text}, d, [ver, prog])
+            rec.violation("bech32.decode_not_inverse" + sfx, {"hrp": hrp, "text": text}, d, [ver, prog])
     rec.ev("parse_bech32")
-    st, t = observe(ps.parse_bech32, exp)
-    if st != "ok" or t is None or t[0] != hrp or t[1] != ver or t[2] != prog:
-        rec.violation("parseable.bech32_mismatch", {"text": exp}, t, [hrp, ver, prog])
+    for arg in (exp, ps.parseable_str(exp)):
+        st, t = observe(ps.parse_bech32, arg)
+        if st != "ok" or t is None or t[0] != hrp or t[1] != ver or t[2] != prog:
+            rec.violation("parseable.bech32_mismatch" + sfx, {"text": exp}, t, [hrp, ver, prog])
     return exp
 
 
@@ -250,7 +352,7 @@ def _check_decode_text(hrp, text, rec, M, must_reject=False, why=""):
             rec.violation("bech32.accepts_invalid" + ("." + why if why else ""), {"hrp": hrp, "text": text}, got, [None, None])
     else:
         if st != "ok" or got[0] != exp[0] or got[1] is None or bytes(got[1]) != exp[1]:
-            rec.violation("bech32.decode_mismatch", {"hrp": hrp, "text": text}, got, exp)
+            rec.violation("bech32.decode_mismatch" + ("" if _has_case(text) else ".caseless_string"), {"hrp": hrp, "text": text}, got, exp)
     rexp = R32.raw_decode(text)
     rec.ev("bech32m.bech32_decode")
     st, rg = observe(bm.bech32_decode, text)
@@ -262,7 +364,14 @@ def _check_decode_text(hrp, text, rec, M, must_reject=False, why=""):
     else:
         want = (rexp[0], rexp[1], 1 if rexp[2] == "bech32" else 2)
         if st != "ok" or (rg[0], rg[1], rg[2]) != want:
-            rec.violation("bech32.raw_decode_mismatch", {"text": text}, rg, want)
+            rec.violation("bech32.raw_decode_mismatch" + ("" if _has_case(text) else ".caseless_string"), {"hrp": hrp, "text": text}, rg, want)
+            return
+        # the documented default spelled out is the same request
+        rec.ev("bech32m.bech32_decode.max_length_90")
+        for a, kw in (((text, 90), {}), ((text,), {"max_length": 90})):
+            st, rg = observe(bm.bech32_decode, *a, **kw)
+            if st != "ok" or (rg[0], rg[1], rg[2]) != want:
+                rec.violation("bech32.raw_decode_mismatch.explicit_max_length", {"hrp": hrp, "text": text}, rg, want)
 
 
 def run_bech32(spec, rec, M):
@@ -380,6 +489,369 @@ def run_bech32_reject(spec, rec, M):
             rec.sample({"op": "bech32m.decode", "class": cls, "hrp": hrp})
 
 
+CASELESS_LENGTHS = [L for L in range(2, 41) if L % 5 in (0, 1, 3)]      # other lengths need a last group that is no digit
+
+
+def run_caseless(spec, rec, M):
+    """Restricted alphabets: valid strings with no cased character at all (letter-free HRP, data part and checksum made of
+    the nine digit characters of the charset), found by search; their corruptions; non-ASCII characters whose case
+    folding is a charset character."""
+    rng = shard_rng(spec["seed"], PROPERTY, spec["tier"], spec["shard"])
+    found = 0
+    for i in range(spec["n"]):
+        hrp = CASELESS_HRPS[i % len(CASELESS_HRPS)] if i < 2 * len(CASELESS_HRPS) else rng.choice(CASELESS_HRPS)
+        ver = rng.choice([5, 7, 10, 15])
+        L = rng.choice([3, 5, 6, 20] + CASELESS_LENGTHS)
+        while len(hrp) + 2 + (8 * L + 4) // 5 + 6 > 90:
+            L = rng.choice(CASELESS_LENGTHS[:8])
+        kind = i % 5
+        if kind < 3:          # a valid segwit address
+            data = caseless_search(rng, hrp, ver, (8 * L + 4) // 5, (-8 * L) % 5, "bech32m")
+            if data is None:
+                continue
+            prog = R32.from5(data[1:])
+            text = _check_segwit_triple(hrp, ver, prog, rec, M)
+            if text is None:
+                continue
+            assert not _has_case(text)
+            found += 1
+            _check_decode_text(hrp, text, rec, M, why="caseless")
+            # corruptions that stay letter-free, and one that brings in a letter in either case
+            for _ in range(8):
+                k = rng.randrange(len(hrp) + 1, len(text))
+                ch = rng.choice([c for c in "023456789" if c != text[k]])
+                _check_decode_text(hrp, text[:k] + ch + text[k + 1:], rec, M, why="caseless_corrupted")
+            k = rng.randrange(len(hrp) + 1, len(text))
+            for ch in ("q", "Q", "l", "L"):
+                _check_decode_text(hrp, text[:k] + ch + text[k + 1:], rec, M, why="caseless_corrupted")
+            if found <= 2:
+                rec.sample({"op": "bech32m.encode (no cased character)", "hrp": hrp, "ver": ver, "prog": prog, "text": text})
+        elif kind == 3:       # the other checksum constant, still letter-free: raw-valid, not an address
+            data = caseless_search(rng, hrp, ver, (8 * L + 4) // 5, (-8 * L) % 5, "bech32")
+            if data is not None:
+                _check_decode_text(hrp, R32.raw_encode(hrp, data, "bech32"), rec, M, why="wrong_constant")
+        else:                 # raw strings of either constant, any data length
+            variant = rng.choice(["bech32", "bech32m"])
+            data = caseless_search(rng, hrp, None, rng.choice([3, 4, 6, 8, 13, rng.randrange(3, 40)]), 0, variant)
+            if data is not None:
+                text = R32.raw_encode(hrp, data, variant)
+                assert not _has_case(text)
+                rec.ev("bech32.caseless_valid_string")
+                _check_decode_text(hrp, text, rec, M, why="caseless_raw")
+    rec.require("bech32.caseless_valid_string")
+    # characters outside ASCII that case-fold into ASCII letters (KELVIN SIGN -> k, LONG S -> S, DOTLESS I -> I)
+    folds = {"k": "\u212a", "K": "\u212a", "s": "\u017f", "S": "\u017f"}
+    for i in range(spec["n"]):
+        hrp = rng.choice(["bc", "tb", "ks", "sk1k", "2", "ltc"])
+        ver = rng.choice([0, 1, rng.randrange(17)])
+        prog = bytes(rng.randrange(256) for _ in range(rng.choice(_segwit_lengths(ver))))
+        good = R32.segwit_encode(hrp, ver, prog)
+        for spelled in (good, good.upper()):
+            idx = [k for k, ch in enumerate(spelled) if ch in folds]
+            for k in rng.sample(idx, min(3, len(idx))):
+                rec.ev("bech32.unicode_fold")
+                _check_decode_text(hrp, spelled[:k] + folds[spelled[k]] + spelled[k + 1:], rec, M, why="unicode_fold")
+            if "i" not in hrp:
+                k = rng.randrange(len(spelled))
+                _check_decode_text(hrp, spelled[:k] + "\u0131" + spelled[k + 1:], rec, M, why="unicode_fold")
+
+
+# -- call histories ---------------------------------------------------------------------------
+# One process, many calls: the expected result of every call is the reference's answer for that call alone. Between calls
+# the caller modifies in place every mutable value it was handed (lists of 5-bit groups, program lists) and every list it
+# passed in; requests are repeated, spelled differently (str / parseable_str, bytes / list, explicit max_length), and the
+# same text is asked about under different HRPs.
+
+MUTS = ["none", "none", "pop0", "clear", "reverse", "append", "flip0", "del_tail", "insert0", "fill"]
+
+
+def _mutate(obj, how):
+    if how == "none" or obj is None:
+        return
+    lists = [obj] if isinstance(obj, (list, bytearray)) else [x for x in obj if isinstance(x, (list, bytearray))] \
+        if isinstance(obj, tuple) else []
+    for x in lists:
+        if how == "pop0":
+            if len(x):
+                x.pop(0)
+        elif how == "clear":
+            del x[:]
+        elif how == "reverse":
+            x.reverse()
+        elif how == "append":
+            x.append(31)
+        elif how == "flip0":
+            if len(x):
+                x[0] ^= 1
+        elif how == "del_tail":
+            del x[-3:]
+        elif how == "insert0":
+            x.insert(0, 1)
+        elif how == "fill":
+            x[:] = [7] * len(x)
+
+
+def _h_expected(st):
+    """-> normalised expected outcome, or None when the statement does not decide the call."""
+    op = st["op"]
+    if op == "bech32_decode":
+        t = R32.raw_decode(st["text"])
+        return ("rej",) if t is None else ("ok", t[0], list(t[1]), 1 if t[2] == "bech32" else 2)
+    if op == "decode":
+        t = R32.segwit_decode(st["hrp"], st["text"])
+        return ("rej",) if t is None else ("ok", t[0], t[1])
+    if op == "encode":
+        t = R32.segwit_encode(st["hrp"], st["ver"], st["prog"])
+        return ("rej",) if t is None else ("ok", t)
+    if op == "parse_bech32":
+        raw = R32.raw_decode(st["text"])
+        if raw is None:
+            return ("rej",)
+        t = R32.segwit_decode(raw[0], st["text"])
+        return None if t is None else ("ok", raw[0], t[0], t[1])
+    if op == "convertbits85":
+        return ("ok", R32.to5(st["data"]))
+    if op == "convertbits58":
+        t = R32.from5(st["vals"])
+        return ("rej",) if t is None else ("ok", t)
+    if op == "bech32_encode":
+        return ("ok", R32.raw_encode(st["hrp"], st["vals"], st["variant"]))
+    if op == "a2b_base58":
+        t = RB.decode(st["text"])
+        return ("rej",) if t is None else ("ok", t)
+    if op == "a2b_hashed_base58":
+        t = RB.decode_check(st["text"])
+        return ("rej",) if t is None else ("ok", t)
+    if op == "is_hashed_base58_valid":
+        return ("ok", RB.decode_check(st["text"]) is not None)
+    if op == "parse_b58_double_sha256":
+        t = RB.decode_check(st["text"])
+        return ("rej",) if t is None else None if t == b"" else ("ok", t)
+    if op == "b2a_base58":
+        return ("ok", RB.encode(st["data"]))
+    if op == "b2a_hashed_base58":
+        return ("ok", RB.encode_check(st["data"]))
+    raise ValueError(op)
+
+
+def _h_text_arg(st, env, M):
+    ps = M[3]
+    if st.get("spell") == "pstr":        # one parseable_str object per text for the whole history (it carries a cache)
+        o = env["pstr"].get(st["text"])
+        if o is None:
+            o = env["pstr"][st["text"]] = ps.parseable_str(st["text"])
+        return o
+    if st.get("spell") == "pstr_new":
+        return ps.parseable_str(st["text"])
+    return st["text"]
+
+
+def _h_run(st, env, M):
+    """Perform the call; -> (normalised observed outcome, returned object, list argument passed in or None)."""
+    b58, _, bm, ps = M
+    op = st["op"]
+    arg = None
+    if op == "bech32_decode":
+        t = _h_text_arg(st, env, M)
+        a, kw = {"pos90": ((t, 90), {}), "kw90": ((t,), {"max_length": 90})}.get(st.get("spell"), ((t,), {}))
+        s, r = observe(bm.bech32_decode, *a, **kw)
+        if s == "ok":
+            n = ("rej",) if tuple(r) == (None, None, None) else ("ok", r[0], None if r[1] is None else list(r[1]), r[2])
+    elif op == "decode":
+        s, r = observe(bm.decode, st["hrp"], _h_text_arg(st, env, M))
+        if s == "ok":
+            n = ("rej",) if tuple(r) == (None, None) else ("ok", r[0], None if r[1] is None else bytes(r[1]))
+    elif op == "encode":
+        arg = {"list": list, "bytearray": bytearray}.get(st.get("as"), bytes)(st["prog"])
+        s, r = observe(bm.encode, st["hrp"], st["ver"], arg)
+        if s == "ok":
+            n = ("rej",) if r is None else ("ok", r)
+    elif op == "parse_bech32":
+        s, r = observe(ps.parse_bech32, _h_text_arg(st, env, M))
+        if s == "ok":
+            n = ("rej",) if r is None else ("ok", r[0], r[1], r[2])
+    elif op == "convertbits85":
+        arg = {"list": list, "bytearray": bytearray}.get(st.get("as"), bytes)(st["data"])
+        s, r = observe(bm.convertbits, arg, 8, 5)
+        if s == "ok":
+            n = ("rej",) if r is None else ("ok", list(r))
+    elif op == "convertbits58":
+        arg = list(st["vals"])
+        s, r = observe(bm.convertbits, arg, 5, 8, False)
+        if s == "ok":
+            n = ("rej",) if r is None else ("ok", bytes(r))
+    elif op == "bech32_encode":
+        arg = list(st["vals"])
+        s, r = observe(bm.bech32_encode, st["hrp"], arg, 1 if st["variant"] == "bech32" else 2)
+        if s == "ok":
+            n = ("ok", r)
+    elif op in ("a2b_base58", "a2b_hashed_base58", "is_hashed_base58_valid"):
+        s, r = observe(getattr(b58, op), st["text"])
+        if s == "ok":
+            n = ("ok", r)
+    elif op == "parse_b58_double_sha256":
+        s, r = observe(ps.parse_b58_double_sha256, _h_text_arg(st, env, M))
+        if s == "ok":
+            n = ("rej",) if r is None else ("ok", r)
+    elif op in ("b2a_base58", "b2a_hashed_base58"):
+        s, r = observe(getattr(b58, op), st["data"])
+        if s == "ok":
+            n = ("ok", r)
+    else:
+        raise ValueError(op)
+    if s != "ok":
+        return ("exc", type(r).__name__), None, arg
+    return n, r, arg
+
+
+def _h_agrees(op, exp, got):
+    if exp is None or got == exp:
+        return True
+    if got[0] == "exc":
+        # raising is a way of rejecting; only the two functions that promise a boolean / an encoding must not raise
+        return exp == ("rej",) or (op == "is_hashed_base58_valid" and exp == ("ok", False))
+    return False
+
+
+def _h_step(st, H, env, rec, M):
+    """Execute step `st` (already appended to H). -> True when it disagreed with the reference."""
+    exp = _h_expected(st)
+    rec.ev("hist.step")
+    rec.ev("hist." + st["op"])
+    got, ret, arg = _h_run(st, env, M)
+    bad = not _h_agrees(st["op"], exp, got)
+    if bad:
+        earlier = [h for h in H[:-1] if h.get("g") == st.get("g")]
+        hands_out_list = lambda h: h["op"] in ("bech32_decode", "decode", "convertbits85", "convertbits58", "bech32_encode") or \
+            h.get("as") in ("list", "bytearray")
+        if any(h.get("mut", "none") != "none" and hands_out_list(h) for h in earlier):
+            when = "after_caller_modified_earlier_values"
+        elif earlier:
+            when = "after_related_calls"
+        else:
+            when = "first_call"
+        rec.violation("hist.%s.%s" % (st["op"], when), {"history": list(H)}, got, exp)
+    how = st.get("mut", "none")
+    if how != "none":
+        rec.ev("hist.caller_mutation")
+        _mutate(ret, how)
+        _mutate(arg, how)
+    return bad
+
+
+def _h_pool(rng):
+    """-> list of (group, entry) the steps of one history draw from."""
+    pool = []
+    g = 0
+    for _ in range(rng.choice([1, 2, 3])):
+        hrp = rng.choice(HRPS[:8] + ["2", "42"])
+        ver = rng.choice([0, 0, 1, 1, 2, 16, rng.randrange(17)])
+        prog = bytes(rng.randrange(256) for _ in range(rng.choice(_segwit_lengths(ver))))
+        if len(hrp) + 2 + (len(prog) * 8 + 4) // 5 + 6 > 90:
+            prog = prog[:20]
+        good = R32.segwit_encode(hrp, ver, prog)
+        pool.append((g, {"t": "addr", "hrp": hrp, "ver": ver, "prog": prog, "text": good}))
+        if rng.random() < 0.5:
+            pool.append((g, {"t": "addr", "hrp": hrp, "ver": ver, "prog": prog, "text": good.upper()}))
+        k = rng.randrange(len(hrp) + 1, len(good))
+        bad = good[:k] + rng.choice([c for c in R32.CHARSET if c != good[k]]) + good[k + 1:]
+        pool.append((g, {"t": "text32", "hrp": hrp, "text": bad}))
+        other = R32.raw_encode(hrp, [ver] + R32.to5(prog), "bech32m" if ver == 0 else "bech32")
+        pool.append((g, {"t": "text32", "hrp": hrp, "text": other}))
+        g += 1
+    hrp = rng.choice(HRPS[:6])
+    pool.append((g, {"t": "text32", "hrp": hrp, "text": R32.raw_encode(hrp, [rng.randrange(32) for _ in range(rng.randrange(0, 30))],
+                                                                       rng.choice(["bech32", "bech32m"]))}))
+    g += 1
+    for _ in range(rng.choice([1, 2])):
+        payload = b"\0" * rng.choice([0, 0, 1, 3]) + bytes(rng.randrange(256) for _ in range(rng.choice([0, 1, 20, 21, 33, 78])))
+        good = RB.encode_check(payload)
+        pool.append((g, {"t": "bytes", "data": payload}))
+        pool.append((g, {"t": "b58", "text": good}))
+        k = rng.randrange(len(good))
+        pool.append((g, {"t": "b58", "text": good[:k] + rng.choice([c for c in RB.ALPHABET if c != good[k]]) + good[k + 1:]}))
+        pool.append((g, {"t": "b58", "text": good[:k] + rng.choice("0OIl ") + good[k + 1:]}))
+        pool.append((g, {"t": "b58", "text": RB.encode(payload)}))
+        g += 1
+    return pool
+
+
+def _h_make_step(rng, g, e):
+    t = e["t"]
+    mut = rng.choice(MUTS)
+    if t == "addr":
+        op = rng.choice(["bech32_decode", "bech32_decode", "decode", "decode", "decode_other", "encode", "encode", "parse_bech32",
+                         "bech32_encode", "convertbits85", "convertbits58"])
+    elif t == "text32":
+        op = rng.choice(["bech32_decode", "decode", "parse_bech32", "decode_other"])
+    elif t == "b58":
+        op = rng.choice(["a2b_base58", "a2b_hashed_base58", "is_hashed_base58_valid", "parse_b58_double_sha256"])
+    else:
+        op = rng.choice(["b2a_base58", "b2a_hashed_base58", "convertbits85"])
+    st = {"op": op, "g": g, "mut": mut}
+    if op == "bech32_decode":
+        st.update(text=e["text"], spell=rng.choice(["plain", "plain", "pos90", "kw90", "pstr", "pstr_new"]))
+    elif op == "decode":
+        st.update(hrp=e["hrp"], text=e["text"], spell=rng.choice(["plain", "plain", "pstr"]))
+    elif op == "decode_other":
+        st.update(op="decode", hrp=rng.choice([h for h in HRPS[:6] if h != e["hrp"]]), text=e["text"], spell="plain")
+    elif op == "encode":
+        st.update(hrp=e["hrp"], ver=e["ver"], prog=e["prog"])
+        st["as"] = rng.choice(["bytes", "list", "bytearray"])
+    elif op == "parse_bech32":
+        st.update(text=e["text"], spell=rng.choice(["plain", "pstr", "pstr_new"]))
+    elif op == "bech32_encode":
+        st.update(hrp=e["hrp"], vals=[e["ver"]] + R32.to5(e["prog"]), variant="bech32" if e["ver"] == 0 else "bech32m")
+    elif op == "convertbits85":
+        st.update(data=e["prog"] if t == "addr" else e["data"])
+        st["as"] = rng.choice(["bytes", "list", "bytearray"])
+    elif op == "convertbits58":
+        st.update(vals=R32.to5(e["prog"]))
+    elif op == "parse_b58_double_sha256":
+        st.update(text=e["text"], spell=rng.choice(["plain", "pstr", "pstr_new"]))
+    elif op in ("b2a_base58", "b2a_hashed_base58"):
+        st.update(data=e["data"])
+    else:
+        st.update(text=e["text"])
+    return st
+
+
+def run_hist(spec, rec, M):
+    rng = shard_rng(spec["seed"], PROPERTY, spec["tier"], spec["shard"])
+    for r in range(spec["n"]):
+        pool = _h_pool(rng)
+        env = {"pstr": {}}
+        H = []
+        last = None
+        for i in range(rng.choice([6, 12, 25, 40])):
+            if last is not None and rng.random() < 0.55:       # stay with the same valid string and its neighbours
+                cands = [x for x in pool if x[0] == last]
+                g, e = rng.choice(cands)
+            else:
+                g, e = rng.choice(pool)
+            last = g
+            st = _h_make_step(rng, g, e)
+            H.append(st)
+            rec.case(("hist", r, i, st["op"], st.get("text"), st.get("prog"), st.get("data"), st.get("spell"), st["mut"]))
+            if _h_step(st, H, env, rec, M):
+                break
+        if r == 0:
+            rec.sample({"op": "call history", "steps": [{k: v for k, v in h.items() if k != "g"} for h in H[:4]]})
+    rec.require("hist.caller_mutation", "hist.bech32_decode", "hist.decode", "hist.encode", "hist.a2b_hashed_base58")
+
+
+def replay_history(case, rec, M):
+    env = {"pstr": {}}
+    H = []
+    for st in case["history"]:
+        st = dict(st)
+        for k in ("prog", "data"):
+            if k in st and not isinstance(st[k], bytes):
+                st[k] = b""
+        H.append(st)
+        _h_step(st, H, env, rec, M)
+
+
 SUBST_ADDRS = [("bc", 0, 20), ("bc", 1, 32), ("tb", 0, 32), ("ltc", 0, 20), ("bc", 16, 2), ("bcrt", 1, 32), ("tb", 2, 40),
                ("a", 0, 20), ("vtc", 5, 11), ("bc", 0, 32)]
 
@@ -477,17 +949,59 @@ def run_subst(spec, rec, M):
         rec.sample({"op": "substitution sweep", "valid": good, "example_corruption": apply([(sep + 2, "q" if good[sep + 2] != "q" else "p")])})
 
 
+def _tc(o):
+    """Witness strings made of digits only would be read back as integers by the replay loader: keep a byte copy."""
+    if isinstance(o, dict):
+        out = {k: _tc(v) for k, v in o.items()}
+        for k, v in o.items():
+            if isinstance(v, str) and len(v) > 15 and (v.isdigit() or (v[:1] == "-" and v[1:].isdigit())):
+                out[k + "_utf8"] = v.encode("utf8")
+        return out
+    if isinstance(o, list):
+        return [_tc(v) for v in o]
+    return o
+
+
+def _untc(o):
+    if isinstance(o, dict):
+        out = {k: _untc(v) for k, v in o.items() if not k.endswith("_utf8")}
+        for k, v in o.items():
+            if k.endswith("_utf8") and isinstance(v, bytes):
+                out[k[:-5]] = v.decode("utf8")
+        return out
+    if isinstance(o, list):
+        return [_untc(v) for v in o]
+    return o
+
+
+class _Rec(object):
+    def __init__(self, rec):
+        self._rec = rec
+
+    def __getattr__(self, name):
+        return getattr(self._rec, name)
+
+    def violation(self, mech, case, *a, **kw):
+        return self._rec.violation(mech, _tc(case), *a, **kw)
+
+
 def run_shard(spec, rec):
     M = _imports()
+    rec = _Rec(rec)
     kind = spec["kind"]
-    rec.require("a2b_base58" if kind.startswith("b58") else "bech32m.decode" if kind.startswith("bech32") else "subst1")
+    rec.require({"b58": "a2b_base58", "b58check": "a2b_base58", "bech32": "bech32m.decode", "bech32_reject": "bech32m.decode",
+                 "subst": "subst1", "caseless": "bech32m.decode", "hist": "hist.step"}[kind])
     {"b58": run_b58, "b58check": run_b58check, "bech32": run_bech32, "bech32_reject": run_bech32_reject,
-     "subst": run_subst}[kind](spec, rec, M)
+     "subst": run_subst, "caseless": run_caseless, "hist": run_hist}[kind](spec, rec, M)
 
 
 def replay_case(case, rec):
     M = _imports()
-    if "corrupted" in case:
+    case = _untc(case)
+    rec = _Rec(rec)
+    if "history" in case:
+        replay_history(case, rec, M)
+    elif "corrupted" in case:
         hrp = case.get("hrp") or case["valid"][:case["valid"].rfind("1")]
         _check_decode_text(hrp, case["corrupted"], rec, M, must_reject=True, why="replay")
         r = M[2].decode(hrp, case["corrupted"])
